@@ -202,7 +202,7 @@ Print Assumptions C06_enr_hypotheses_satisfiable.
 Theorem C06_nodes_inner_list_exact_refuted :
   exists bs m, bytes_ok bs /\
     decode_msg bool toy_encode toy_decode false bs = Ok m /\ encode_msg bool toy_encode m <> bs.
-Proof. exact nodes_inner_list_exact_refuted_toy. Qed.
+Proof. exact nodes_inner_list_exact_refuted. Qed.
 Print Assumptions C06_nodes_inner_list_exact_refuted.
 
 Theorem C06_refutation_witness_rejected_after_repair :
